@@ -1,4 +1,11 @@
--- Root of the `XsVerif` library.  Models are Mathlib-free; Props/Lemmas may import single
--- Mathlib modules.
+-- Root of the `XsVerif` library.  Models and drivers are Mathlib-free; Lemmas/Props may import
+-- single Mathlib modules.  (Per-property Props/Audit/Driver modules are built by their checks.)
 import XsVerif.Basic
 import XsVerif.Model.Wildcard
+import XsVerif.Model.Rx
+import XsVerif.Model.Particle
+import XsVerif.Model.Visitor
+import XsVerif.Lemmas.Fresh
+import XsVerif.Lemmas.Rx
+import XsVerif.Props.C01
+import XsVerif.Props.C16
